@@ -117,10 +117,12 @@ def make_plan(seed, tier):
     # L1 — the literal single-thread clause, complete: 256 draws, every size, both types.
     for typ in ("lut", "static"):
         for n in range(13):
-            # "1 thread" = a lone spawned thread that is NOT the first caller in the process (the main thread
-            # made one warm-up draw before it), the main thread itself, or a lone spawned thread that is first
-            k, m, w = rng.choice([(1, 0, 1), (1, 0, 1), (0, 1, 0), (1, 0, 0)])
-            jobs.append(_job("L1", rng, K=k, main=m, warm=w, D=256, sizes=[n], types=typ, preempt=rng.choice(PREEMPT)))
+            # "1 thread", in both caller contexts: (A) a lone spawned thread that is NOT the first caller in the
+            # process (the main thread made one warm-up draw before it), and (B) the first caller — the main
+            # thread itself or a lone spawned thread, seed-chosen
+            jobs.append(_job("L1", rng, K=1, main=0, warm=1, D=256, sizes=[n], types=typ, preempt=rng.choice(PREEMPT)))
+            k, m = rng.choice([(0, 1), (1, 0)])
+            jobs.append(_job("L1", rng, K=k, main=m, warm=0, D=256, sizes=[n], types=typ, preempt=rng.choice(PREEMPT)))
     combos = [(typ, n) for typ in ("lut", "static") for n in range(13)]
     if tier == "quick":
         # L16 — the literal 16-thread clause on a seed-chosen 4 of the 14 single-word combinations
